@@ -29,8 +29,8 @@ class TransportSetup(Contract):
         out = []
         for cts in (None, 'c'):
             for costs_only in (False, True):
-                for tg in ('given', 'preset'):
-                    if tg == 'preset' and costs_only:
+                for tg in ('given', 'preset', 'same'):
+                    if tg != 'given' and costs_only:
                         continue
                     out.append(dict(cts=cts, costs_only=costs_only, tg=tg))
         return out
@@ -57,6 +57,14 @@ class TransportSetup(Contract):
             g.set('discount_factors', Arr(g.get('T'), lambda k: df(lift(k))))
             g.set('restricted', R)
             tg_arg = None
+        elif case['tg'] == 'same':
+            # the asset already holds this very grid object, whose derived cache was overwritten by ANOTHER asset since
+            # (other window, other wacc): the set-up has to rebuild it all the same (C10 / C20: no short cut on identity)
+            self_obj.set('timegrid', g)
+            sdf = disc_fun(H, 'stale')
+            g.set('restricted', mk_restricted(H, g, pfx='stale', df=sdf))
+            g.set('discount_factors', Arr(g.get('T'), lambda k: sdf(lift(k))))
+            tg_arg = g
         else:
             g.set('restricted', Havoc('stale cache: restricted grid of an earlier set-up'))
             g.set('discount_factors', Havoc('stale cache: discount factors of an earlier set-up'))
@@ -177,7 +185,13 @@ class TransportSetup(Contract):
             raise N.NotRealisable('constructor precondition')
         a = eao.assets.Transport(name='asset_name', nodes=nodes, start=start, end=end, wacc=float(P['wacc']),
                                  costs_time_series=case['cts'], **kw)
-        if case['tg'] == 'preset':
+        if case['tg'] == 'same':
+            a.set_timegrid(tg)
+            _pts = list(tg.timepoints) + [tg.end]
+            _other = eao.assets.SimpleContract(name='other asset', nodes=eao.assets.Node('elsewhere'), start=_pts[min(1, len(_pts) - 1)], end=_pts[-1], wacc=0.37)
+            _other.set_timegrid(tg)      # overwrites the shared grid's restricted part and discount factors
+            call = lambda: a.setup_optim_problem(prices, tg, case['costs_only'])
+        elif case['tg'] == 'preset':
             a.set_timegrid(tg)
             call = lambda: a.setup_optim_problem(prices, None, case['costs_only'])
         else:
